@@ -133,7 +133,7 @@ func H19b_dead_subscriber() {
 	vrtExchange(c, &specPkt{Typ: specSUBSCRIBE, ID: 1, Topics: [][]byte{[]byte("d")}, QoS: []byte{0}})
 	c.peerTake()
 	c.peerStall(100)
-	selfFlood := vrtBool("floods_itself")
+	selfFlood := vrtBound("N19selfflood", 1) == 1 && vrtBool("floods_itself")
 	if selfFlood {
 		// the client published to its own subscription without reading: its own processor is stuck in its own ring
 		for i := 0; i < 4; i++ {
